@@ -201,6 +201,12 @@ func constrain(k *xzCase, big bool) {
 	if k.Family == "one" {
 		k.N = 1
 	}
+	if k.Family == "sandwich" && k.N < 280000 && k.Part != "bytes" {
+		k.N = 280000 + k.N%20000 // the raw chunk in the middle needs > 128 KiB of incompressible data
+		if k.BlockSize > 0 && k.BlockSize < 1<<20 {
+			k.BlockSize = 0
+		}
+	}
 	// a new LZMA2 encoder (dictionary + matcher tables) is allocated per block
 	if k.BlockSize > 0 {
 		perBlock := k.effDict() * 6
@@ -219,6 +225,8 @@ func constrain(k *xzCase, big bool) {
 	if k.Matcher == 1 {
 		lim := 300000
 		switch k.Family {
+		case "sandwich":
+			lim = 300000
 		case "zeros", "run", "zeroprefix", "periodic", "lowent", "altseg", "nearrep":
 			lim = 12000
 			if big {
